@@ -6,6 +6,9 @@ import Mathlib.Data.List.Range
 import Mathlib.Data.List.Nodup
 import Mathlib.Tactic.Ring
 import Mathlib.Tactic.Linarith
+import Mathlib.Algebra.BigOperators.Group.List.Basic
+import Mathlib.Algebra.BigOperators.Ring.List
+import Mathlib.Tactic.SplitIfs
 /-!
 # C01 — results do not depend on the storage format
 
@@ -500,6 +503,257 @@ theorem diaOfDense_abs (d : Dense R) (i j : Nat) (hi : i < d.rows) (hj : j < d.c
   rw [this]
 
 /-! ### the dispatcher -/
+
+/-! ### `matmul_dia` is the matrix product -/
+section diaMatmulThm
+variable {R : Type} [CommSemiring R]
+
+theorem find_reverse_nodup (ds : List (Int × (Nat → R))) (h : (ds.map (·.1)).Nodup) (o : Int) (j : Nat) :
+    (match ds.reverse.find? (fun d => d.1 == o) with | some d => d.2 j | none => 0)
+      = (ds.map fun d => if d.1 = o then d.2 j else 0).sum := by
+  induction ds with
+  | nil => simp
+  | cons d ds ih =>
+    rw [List.map_cons, List.nodup_cons] at h
+    rw [List.reverse_cons, List.find?_append, List.map_cons, List.sum_cons]
+    by_cases hd : d.1 = o
+    · have hnone : ds.reverse.find? (fun d => d.1 == o) = none := by
+        rw [List.find?_eq_none]
+        intro x hx hxo
+        have : x.1 = o := by simpa using hxo
+        exact h.1 (List.mem_map.mpr ⟨x, List.mem_reverse.mp hx, by rw [this, hd]⟩)
+      have hzero : (ds.map fun d => if d.1 = o then d.2 j else 0).sum = 0 := by
+        have := ih h.2
+        rw [hnone] at this
+        exact this.symm
+      simp [hnone, hd, hzero]
+    · have : ([d].find? fun d => d.1 == o) = none := by simp [hd]
+      rw [this, Option.or_none, if_neg hd, zero_add]
+      exact ih h.2
+
+theorem Dia.abs_eq_sum (m : Dia R) (h : (m.diags.map (·.1)).Nodup) (i j : Nat) :
+    m.abs i j = (m.diags.map fun d => if d.1 = (j : Int) - (i : Int) then d.2 j else 0).sum := by
+  unfold Dia.abs
+  exact find_reverse_nodup m.diags h _ j
+
+theorem foldl_add_eq_sum (l : List R) : l.foldl (· + ·) 0 = l.sum := by
+  rw [List.sum_eq_foldl]
+
+theorem sum_filterMap_ite {α : Type} (l : List α) (c : α → Prop) [DecidablePred c] (t : α → R) :
+    (l.filterMap fun x => if c x then some (t x) else none).sum = (l.map fun x => if c x then t x else 0).sum := by
+  induction l with
+  | nil => simp
+  | cons x l ih =>
+    by_cases h : c x
+    · simp [List.filterMap_cons, h, ih]
+    · simp [List.filterMap_cons, h, ih]
+
+theorem sum_flatMap' {α : Type} (l : List α) (g : α → List R) :
+    (l.flatMap g).sum = (l.map fun x => (g x).sum).sum := by
+  induction l with
+  | nil => simp
+  | cons x l ih => simp [List.flatMap_cons, ih]
+
+theorem sum_map_ite_nodup (l : List Int) (h : l.Nodup) (a : Int) (f : Int → R) :
+    (l.map fun o => if o = a then f o else 0).sum = if a ∈ l then f a else 0 := by
+  induction l with
+  | nil => simp
+  | cons x l ih =>
+    rw [List.nodup_cons] at h
+    rw [List.map_cons, List.sum_cons, ih h.2]
+    by_cases hx : x = a
+    · subst hx; simp [h.1]
+    · have : a ≠ x := fun e => hx e.symm
+      simp [hx, this]
+
+theorem sum_map_zero' {α : Type} (l : List α) (f : α → R) (h : ∀ x ∈ l, f x = 0) : (l.map f).sum = 0 := by
+  induction l with
+  | nil => simp
+  | cons x l ih =>
+    rw [List.map_cons, List.sum_cons, h x List.mem_cons_self, ih (fun y hy => h y (List.mem_cons_of_mem _ hy)), add_zero]
+
+theorem sum_comm_list {α β : Type} (l1 : List α) (l2 : List β) (f : α → β → R) :
+    (l1.map fun x => (l2.map fun y => f x y).sum).sum = (l2.map fun y => (l1.map fun x => f x y).sum).sum := by
+  induction l1 with
+  | nil => simp
+  | cons x l1 ih =>
+    rw [List.map_cons, List.sum_cons, ih]
+    simp only [List.map_cons, List.sum_cons]
+    rw [← List.sum_map_add]
+
+theorem sum_range_single (n : Nat) (K : Int) (g : Nat → R) :
+    ((List.range n).map fun (k : Nat) => if ((k : Nat) : Int) = K then g k else 0).sum
+      = if 0 ≤ K ∧ K < n then g K.toNat else 0 := by
+  induction n with
+  | zero =>
+    have : ¬ (0 ≤ K ∧ K < (0 : Nat)) := by omega
+    simp [this]
+  | succ n ih =>
+    rw [List.range_succ, List.map_append, List.sum_append, ih]
+    simp only [List.map_cons, List.map_nil, List.sum_cons, List.sum_nil, add_zero]
+    by_cases h1 : (n : Int) = K
+    · have h2 : ¬ (0 ≤ K ∧ K < (n : Nat)) := by omega
+      have h3 : 0 ≤ K ∧ K < ((n + 1 : Nat) : Int) := by omega
+      have h4 : K.toNat = n := by omega
+      rw [if_neg h2, if_pos h1, if_pos h3, h4, zero_add]
+    · rw [if_neg h1, add_zero]
+      by_cases h2 : 0 ≤ K ∧ K < (n : Nat)
+      · have h3 : 0 ≤ K ∧ K < ((n + 1 : Nat) : Int) := by omega
+        rw [if_pos h2, if_pos h3]
+      · have h3 : ¬ (0 ≤ K ∧ K < ((n + 1 : Nat) : Int)) := by omega
+        rw [if_neg h2, if_neg h3]
+
+theorem diaOutValue_eq (L Rm : Dia R) (scale : R) (o : Int) (col : Nat) :
+    diaOutValue L Rm scale o col = (L.diags.map fun dl => (Rm.diags.map fun dr =>
+      if dl.1 + dr.1 = o then diaPairTerm L.rows L.cols Rm.rows Rm.cols scale dl dr col else 0).sum).sum := by
+  unfold diaOutValue
+  rw [foldl_add_eq_sum, sum_flatMap']
+  congr 1
+  apply List.map_congr_left
+  intro dl _
+  exact sum_filterMap_ite Rm.diags (fun dr => dl.1 + dr.1 = o) _
+
+/-- the term of one pair of diagonals, with the loop bounds resolved: the pair contributes to entry (i, j)
+exactly when the intermediate index k = i + (left offset) is a column of the left operand -/
+theorem diaPairTerm_eq (L Rm : Dia R) (scale : R) (hdim : L.cols = Rm.rows) (dl dr : Int × (Nat → R))
+    (i j : Nat) (hi : i < L.rows) (hj : j < Rm.cols) (hsum : dl.1 + dr.1 = (j : Int) - (i : Int)) :
+    diaPairTerm L.rows L.cols Rm.rows Rm.cols scale dl dr j
+      = if 0 ≤ (i : Int) + dl.1 ∧ (i : Int) + dl.1 < L.cols then scale * dl.2 ((i : Int) + dl.1).toNat * dr.2 j else 0 := by
+  unfold diaPairTerm
+  have hk : (j : Int) - dr.1 = (i : Int) + dl.1 := by omega
+  simp only [hk]
+  have hiff : (max (max (max 0 dl.1 + dr.1) (max 0 dr.1)) (max 0 (dl.1 + dr.1)) ≤ (j : Int) ∧
+      (j : Int) < min (min (min (L.cols : Int) (L.rows + dl.1) + dr.1) (min (Rm.cols : Int) (Rm.rows + dr.1)))
+        (min (Rm.cols : Int) (L.rows + (dl.1 + dr.1)))) ↔ (0 ≤ (i : Int) + dl.1 ∧ (i : Int) + dl.1 < L.cols) := by
+    have : (L.cols : Int) = Rm.rows := by exact_mod_cast hdim
+    omega
+  by_cases h : 0 ≤ (i : Int) + dl.1 ∧ (i : Int) + dl.1 < L.cols
+  · rw [if_pos (hiff.mpr h), if_pos h]
+  · rw [if_neg (fun h' => h (hiff.mp h')), if_neg h]
+
+theorem sum_mul_sum_list {α β : Type} (l1 : List α) (l2 : List β) (f : α → R) (g : β → R) :
+    (l1.map f).sum * (l2.map g).sum = (l1.map fun x => (l2.map fun y => f x * g y).sum).sum := by
+  rw [← List.sum_map_mul_right]
+  congr 1
+  apply List.map_congr_left
+  intro x _
+  rw [← List.sum_map_mul_left]
+
+theorem inner_k_sum (n i j : Nat) (dl dr : Int × (Nat → R)) :
+    ((List.range n).map fun (k : Nat) =>
+        (if dl.1 = ((k : Nat) : Int) - (i : Int) then dl.2 k else 0) * (if dr.1 = (j : Int) - ((k : Nat) : Int) then dr.2 j else 0)).sum
+      = if dl.1 + dr.1 = (j : Int) - (i : Int) then
+          (if 0 ≤ (i : Int) + dl.1 ∧ (i : Int) + dl.1 < n then dl.2 ((i : Int) + dl.1).toNat * dr.2 j else 0) else 0 := by
+  have hrw : ∀ k : Nat, (if dl.1 = ((k : Nat) : Int) - (i : Int) then dl.2 k else 0) * (if dr.1 = (j : Int) - ((k : Nat) : Int) then dr.2 j else 0)
+      = if ((k : Nat) : Int) = (i : Int) + dl.1 then (if dr.1 = (j : Int) - ((k : Nat) : Int) then dl.2 k * dr.2 j else 0) else 0 := by
+    intro k
+    by_cases h1 : dl.1 = ((k : Nat) : Int) - (i : Int)
+    · have h1' : ((k : Nat) : Int) = (i : Int) + dl.1 := by omega
+      rw [if_pos h1, if_pos h1']
+      by_cases h2 : dr.1 = (j : Int) - ((k : Nat) : Int)
+      · rw [if_pos h2, if_pos h2]
+      · rw [if_neg h2, if_neg h2, mul_zero]
+    · have h1' : ¬ ((k : Nat) : Int) = (i : Int) + dl.1 := by omega
+      rw [if_neg h1, if_neg h1', zero_mul]
+  simp only [hrw]
+  rw [sum_range_single n ((i : Int) + dl.1) (fun k => if dr.1 = (j : Int) - ((k : Nat) : Int) then dl.2 k * dr.2 j else 0)]
+  by_cases hb : 0 ≤ (i : Int) + dl.1 ∧ (i : Int) + dl.1 < n
+  · have hK : (((i : Int) + dl.1).toNat : Int) = (i : Int) + dl.1 := Int.toNat_of_nonneg hb.1
+    rw [if_pos hb]
+    by_cases hs : dl.1 + dr.1 = (j : Int) - (i : Int)
+    · have : dr.1 = (j : Int) - ((((i : Int) + dl.1).toNat : Nat) : Int) := by omega
+      rw [if_pos hs, if_pos hb, if_pos this]
+    · have : ¬ dr.1 = (j : Int) - ((((i : Int) + dl.1).toNat : Nat) : Int) := by omega
+      rw [if_neg hs, if_neg this]
+  · rw [if_neg hb]
+    by_cases hs : dl.1 + dr.1 = (j : Int) - (i : Int)
+    · rw [if_pos hs, if_neg hb]
+    · rw [if_neg hs]
+
+/-- **`matmul_dia` is the matrix product**: for every pair of diagonal-format operands with distinct stored
+offsets (in any order, with arbitrary values stored outside the rectangle), every scale and every entry,
+`(L · R)[i, j] = scale · Σ_k L[i, k] R[k, j]` — the column bounds of the kernel select exactly the terms
+whose intermediate index exists. -/
+theorem matmulDia_abs (L Rm : Dia R) (scale : R) (hdim : L.cols = Rm.rows)
+    (hL : (L.diags.map (·.1)).Nodup) (hR : (Rm.diags.map (·.1)).Nodup)
+    (i j : Nat) (hi : i < L.rows) (hj : j < Rm.cols) :
+    (matmulDia L Rm scale).abs i j = scale * ((List.range L.cols).map fun k => L.abs i k * Rm.abs k j).sum := by
+  -- the value the kernel accumulates on the diagonal j - i at column j
+  have hV : diaOutValue L Rm scale ((j : Int) - (i : Int)) j
+      = scale * ((List.range L.cols).map fun k => L.abs i k * Rm.abs k j).sum := by
+    rw [diaOutValue_eq]
+    have hterm : ∀ dl dr : Int × (Nat → R),
+        (if dl.1 + dr.1 = (j : Int) - (i : Int) then diaPairTerm L.rows L.cols Rm.rows Rm.cols scale dl dr j else 0)
+          = scale * (if dl.1 + dr.1 = (j : Int) - (i : Int) then
+              (if 0 ≤ (i : Int) + dl.1 ∧ (i : Int) + dl.1 < L.cols then dl.2 ((i : Int) + dl.1).toNat * dr.2 j else 0) else 0) := by
+      intro dl dr
+      by_cases hs : dl.1 + dr.1 = (j : Int) - (i : Int)
+      · rw [if_pos hs, if_pos hs, diaPairTerm_eq L Rm scale hdim dl dr i j hi hj hs]
+        by_cases hb : 0 ≤ (i : Int) + dl.1 ∧ (i : Int) + dl.1 < L.cols
+        · rw [if_pos hb, if_pos hb, mul_assoc]
+        · rw [if_neg hb, if_neg hb, mul_zero]
+      · rw [if_neg hs, if_neg hs, mul_zero]
+    simp only [hterm]
+    simp only [List.sum_map_mul_left]
+    congr 1
+    -- right-hand side: expand the two entries as sums over the stored diagonals and exchange the sums
+    have hexp : ∀ k : Nat, L.abs i k * Rm.abs k j
+        = (L.diags.map fun dl => (Rm.diags.map fun dr =>
+            (if dl.1 = ((k : Nat) : Int) - (i : Int) then dl.2 k else 0) * (if dr.1 = (j : Int) - ((k : Nat) : Int) then dr.2 j else 0)).sum).sum := by
+      intro k
+      rw [Dia.abs_eq_sum L hL, Dia.abs_eq_sum Rm hR, sum_mul_sum_list]
+    simp only [hexp]
+    rw [sum_comm_list (List.range L.cols) L.diags]
+    congr 1
+    apply List.map_congr_left
+    intro dl _
+    rw [sum_comm_list (List.range L.cols) Rm.diags]
+    congr 1
+    apply List.map_congr_left
+    intro dr _
+    exact (inner_k_sum L.cols i j dl dr).symm
+  -- the diagonal j - i of the result holds that value (or is absent, and the value is zero)
+  have hnod : ((matmulDia L Rm scale).diags.map (·.1)).Nodup := by
+    simp only [matmulDia, List.map_map]
+    have : ((fun (p : Int × (Nat → R)) => p.1) ∘ fun o => (o, diaOutValue L Rm scale o)) = id := by
+      funext o; rfl
+    rw [this, List.map_id]
+    apply List.Nodup.filter
+    apply List.Nodup.map _ List.nodup_range
+    intro a b hab
+    simp only at hab
+    omega
+  rw [Dia.abs_eq_sum _ hnod]
+  simp only [matmulDia, List.map_map]
+  have hfun : ((fun (d : Int × (Nat → R)) => if d.1 = (j : Int) - (i : Int) then d.2 j else 0) ∘ fun o => (o, diaOutValue L Rm scale o))
+      = fun o => if o = (j : Int) - (i : Int) then diaOutValue L Rm scale o j else 0 := by
+    funext o; rfl
+  rw [hfun, sum_map_ite_nodup _ _ _ (fun o => diaOutValue L Rm scale o j)]
+  · split_ifs with hmem
+    · exact hV
+    · -- no pair of stored offsets sums to j - i: every term of the value is absent
+      rw [← hV, diaOutValue_eq]
+      symm
+      apply sum_map_zero'
+      intro dl hdl
+      apply sum_map_zero'
+      intro dr hdr
+      rw [if_neg]
+      intro hs
+      apply hmem
+      rw [List.mem_filter]
+      refine ⟨List.mem_map.mpr ⟨j + (L.rows - 1 - i), List.mem_range.mpr (by omega), by omega⟩, ?_⟩
+      rw [List.any_eq_true]
+      refine ⟨dl, hdl, ?_⟩
+      rw [List.any_eq_true]
+      exact ⟨dr, hdr, by simpa using hs⟩
+  · apply List.Nodup.filter
+    apply List.Nodup.map _ List.nodup_range
+    intro a b hab
+    simp only at hab
+    omega
+
+end diaMatmulThm
 
 /-- **a specialisation constructed by inserting conversions computes the same operation**: if the
 registered implementation refines `f` on the meanings and every converter preserves the meaning, so
